@@ -114,14 +114,14 @@ func (f *frame) callFunction(callee *ssa.Function, bindings, args []Val, argVals
 		// a contract written next to the function under verification (same
 		// package directory) takes precedence over the built-in model - this is
 		// how a package attaches lock invariants to sync.Mutex operations
-		if spec := vc.Eng.Spec.Funcs[name]; spec != nil && len(bindings) == 0 && vc.specIsLocal(spec) && vc.specAppliesHere(spec) {
+		if spec := vc.calleeSpec(name); spec != nil && len(bindings) == 0 && vc.specIsLocal(spec) {
 			return f.contractCall(callee, spec, args, in, st, site)
 		}
 		if v, handled := h(f, callee, args, in, st, site); handled {
 			return v
 		}
 	}
-	if spec := vc.Eng.Spec.Funcs[name]; spec != nil && len(bindings) == 0 && !(f.top && callee == f.fn && false) {
+	if spec := vc.calleeSpec(name); spec != nil && len(bindings) == 0 {
 		return f.contractCall(callee, spec, args, in, st, site)
 	}
 	if spec := vc.Eng.Spec.Funcs[name]; spec != nil && len(bindings) > 0 && len(bindings) == len(callee.FreeVars) {
@@ -812,4 +812,19 @@ func (vc *VC) specAppliesHere(spec *FuncSpec) bool {
 		return true
 	}
 	return strings.HasPrefix(FuncName(vc.Fn), p)
+}
+
+// calleeSpec: the contract to use for calls to name from the function under
+// verification (the first of the alternatives whose only_for restriction
+// admits it).
+func (vc *VC) calleeSpec(name string) *FuncSpec {
+	if s := vc.Eng.Spec.Funcs[name]; s != nil && vc.specAppliesHere(s) {
+		return s
+	}
+	for _, s := range vc.Eng.Spec.Alt[name] {
+		if vc.specAppliesHere(s) {
+			return s
+		}
+	}
+	return nil
 }
